@@ -5,8 +5,10 @@ package interp
 
 import (
 	"fmt"
+	"os"
 	"sort"
 	"strings"
+	"sync/atomic"
 	"time"
 
 	"verif/engine/solver"
@@ -69,9 +71,9 @@ type pathState struct {
 	pushed  bool
 	flushed int
 	// inputs
-	names    map[string]int      // name -> times used
-	inputs   []string            // input variable names in creation order
-	concrete map[string]uint64   // choices etc. recorded concretely (also part of the replay vector)
+	names    map[string]int    // name -> times used
+	inputs   []string          // input variable names in creation order
+	concrete map[string]uint64 // choices etc. recorded concretely (also part of the replay vector)
 	reached  map[string]bool
 	known    []knownRegion
 	// budgets / ghost state
@@ -100,6 +102,7 @@ func psOf(t *sym.Term) *pathState { return t.C.User.(*pathState) }
 
 func (ps *pathState) ensure() {
 	if !ps.pushed {
+		ps.slv.ResetTranscript()
 		ps.slv.Send("(push)\n")
 		ps.pr.Push()
 		ps.pushed = true
@@ -142,10 +145,24 @@ func (ps *pathState) check(extra ...*sym.Term) solver.Result {
 	if res == solver.Unknown {
 		ps.i.stats.SolverUnknown++
 		ps.i.lastUnknown = ps.slv.LastError
+		ps.dumpUnknown()
 	}
-	// caller may want a model: leave scope open until popCheck
 	ps.slv.Send("(pop)\n")
 	return res
+}
+
+var dumpSeq int32
+
+// dumpUnknown writes the stand-alone script of the query that just came back
+// unknown when GOSYM_DUMP is set.
+func (ps *pathState) dumpUnknown() {
+	dir := os.Getenv("GOSYM_DUMP")
+	if dir == "" || !ps.slv.KeepScript {
+		return
+	}
+	n := atomic.AddInt32(&dumpSeq, 1)
+	os.MkdirAll(dir, 0o755)
+	os.WriteFile(fmt.Sprintf("%s/unknown_%d.smt2", dir, n), []byte(ps.slv.Transcript.String()), 0o644)
 }
 
 // checkModel is like check but on Sat also returns a model for all inputs.
